@@ -8,6 +8,8 @@
 -/
 import GraphiqModel.Proofs.HilbertDimReduced
 import GraphiqModel.Proofs.HeightEntropy
+import GraphiqModel.Proofs.InvClifford
+import GraphiqModel.Proofs.HeightTotal
 namespace Graphiq
 namespace Hilbert
 open Matrix PRow TabSpec Tab STab Module
@@ -230,6 +232,87 @@ theorem height_is_renyi_entropy (m : Nat) (t : Tab) (k : Nat) (hn : t.n = m + (l
     simp only [Int.ofNat_eq_natCast]
     omega
   rw [he, zpow_sub₀ (by norm_num : (2 : ℂ) ≠ 0), zpow_natCast, zpow_natCast]
+
+/-! ### arbitrary stabilizer tableaux (`STab`): real commuting generators on which `height_func_list` returns -/
+
+/-- linear independence of the symplectic vectors over GF(2) is the independence notion `STab.Indep` -/
+theorem indep_of_linearIndependent (t : STab)
+    (hli : LinearIndependent (ZMod 2) (fun i : Fin t.n => (t.row i).vec t.n)) : t.Indep := by
+  intro S hS i hi
+  rw [Fintype.linearIndependent_iff] at hli
+  have hz : ∑ j : Fin t.n, (Graphiq.b2z (S j.val)) • (t.row j).vec t.n = 0 := by
+    funext j
+    rw [lincomb_apply t.n t.row (fun j : Fin t.n => Graphiq.b2z (S j.val)) j]
+    have hsel : ∀ i, i < t.n → selOf (fun j : Fin t.n => Graphiq.b2z (S j.val)) i = S i := by
+      intro i hi
+      unfold selOf
+      rw [dif_pos hi]
+      show decide (Graphiq.b2z (S i) = 1) = S i
+      cases hsi : S i <;> simp [Graphiq.b2z]
+    have hx : parityTo t.n (fun i => selOf (fun j : Fin t.n => Graphiq.b2z (S j.val)) i && (t.row i).x j)
+        = parityTo t.n (fun i => S i && STab.xb t i j) :=
+      parityTo_congr t.n _ _ (fun i hi => by rw [hsel i hi]; rfl)
+    have hzz : parityTo t.n (fun i => selOf (fun j : Fin t.n => Graphiq.b2z (S j.val)) i && (t.row i).z j)
+        = parityTo t.n (fun i => S i && STab.zb t i j) :=
+      parityTo_congr t.n _ _ (fun i hi => by rw [hsel i hi]; rfl)
+    rw [hx, hzz, (hS j.val j.isLt).1, (hS j.val j.isLt).2]
+    rfl
+  have := hli (fun j : Fin t.n => Graphiq.b2z (S j.val)) hz ⟨i, hi⟩
+  exact (Graphiq.b2z_eq_zero _).1 this
+
+/-- **graphiq's height function is the entanglement entropy of the cut, for every stabilizer tableau** (real commuting
+    generators, any gauge): whenever `height_func_list` returns the list `l`, the reduced state `σ = Tr_{0..k} ρ` of the
+    qubits right of `k` satisfies `σ² = 2^{−l[k]} σ` (flat spectrum: maximally mixed on a subspace of dimension `2^{l[k]}`),
+    `tr σ = 1`, and its purity is `tr σ² = 2^{−l[k]}` -/
+theorem height_is_renyi_entropy_stab (m : Nat) (t : STab) (k : Nat) (hn : t.n = m + (leftSites k).length)
+    (hg : t.Good) (l : List Int) (h : t.heightFuncList = .ok l) :
+    ptraceList (leftSites k) (rho (m + (leftSites k).length) t) * ptraceList (leftSites k) (rho (m + (leftSites k).length) t)
+      = ((2 : ℂ) ^ (-(l.getD k 0))) • ptraceList (leftSites k) (rho (m + (leftSites k).length) t) ∧
+    Matrix.trace (ptraceList (leftSites k) (rho (m + (leftSites k).length) t)) = 1 ∧
+    Matrix.trace (ptraceList (leftSites k) (rho (m + (leftSites k).length) t)
+        * ptraceList (leftSites k) (rho (m + (leftSites k).length) t)) = (2 : ℂ) ^ (-(l.getD k 0)) := by
+  have hlen := leftSites_length k
+  have hk : k < t.n := by rw [hn, hlen]; omega
+  have hli := (heightFuncList_ok_iff_indep t).mp ⟨l, h⟩
+  obtain ⟨T, _, hTn, vT, rT, sT⟩ := cliffordFromStabilizer_complete t hg (indep_of_linearIndependent t hli)
+  have rT' : T.StabReal := fun i h1 h2 => rT i (by rw [← hTn]; exact h2)
+  obtain ⟨n, row⟩ := t
+  simp only at hTn hn hk
+  subst hTn
+  -- same density matrix
+  have hρ : rho (m + (leftSites k).length) (STab.mk T.n row) = rho (m + (leftSites k).length) (STab.ofTab T) := by
+    have := rho_spanEq (STab.ofTab T) (STab.mk T.n row) sT (ofTab_good T vT) hg
+    have e : (STab.ofTab T).n = m + (leftSites k).length := hn
+    rw [e] at this
+    exact this.symm
+  -- same subspace
+  have hgs : (STab.ofTab T).gspace = (STab.mk T.n row).gspace :=
+    gspaceOf_eq_of_inSpan T.n (STab.ofTab T).row row (fun p => ⟨sT.sub p, sT.sup p⟩)
+  obtain ⟨c1, c2⟩ := cut_entropy m T k hn vT rT'
+  have tr1 : Matrix.trace (ptraceList (leftSites k) (rho (m + (leftSites k).length) (STab.ofTab T))) = 1 := by
+    rw [trace_ptraceList (leftSites k) (fun q hq => by have := (mem_leftSites k q).mp hq; omega) (leftSites_desc k)]
+    have := rho_ofTab_trace T vT
+    rw [hn] at this; exact this
+  -- the exponent
+  have hexp : (2 : ℂ) ^ (finrank (ZMod 2) ↥((STab.ofTab T).gspace ⊓ rightOf T.n k)) / 2 ^ m
+      = (2 : ℂ) ^ (-(l.getD k 0)) := by
+    rw [heightFuncList_eq_finrank (STab.mk T.n row) l h, hgs]
+    have hget : ((List.range (STab.mk T.n row).n).map fun (k : Nat) =>
+        Int.ofNat (STab.mk T.n row).n - (Int.ofNat k + 1)
+          - Int.ofNat (finrank (ZMod 2) ↥((STab.mk T.n row).gspace ⊓ rightOf (STab.mk T.n row).n k))).getD k 0
+        = Int.ofNat T.n - (Int.ofNat k + 1)
+          - Int.ofNat (finrank (ZMod 2) ↥((STab.mk T.n row).gspace ⊓ rightOf T.n k)) := by
+      rw [List.getD_eq_getElem?_getD, List.getElem?_map, List.getElem?_range (by exact hk)]
+      rfl
+    rw [hget]
+    have he : ∀ κ : ℕ, -(Int.ofNat T.n - (Int.ofNat k + 1) - Int.ofNat κ) = ((κ : ℕ) : ℤ) - ((m : ℕ) : ℤ) := by
+      intro κ
+      simp only [Int.ofNat_eq_natCast]
+      omega
+    rw [he, zpow_sub₀ (by norm_num : (2 : ℂ) ≠ 0), zpow_natCast, zpow_natCast]
+    rfl
+  rw [hρ, ← hexp]
+  exact ⟨c1, tr1, c2⟩
 
 /-! ### non-vacuity: the Bell pair -/
 
